@@ -123,7 +123,7 @@ def crc_jobs(tier):
             out.append({"name": "crc-%s-%s" % (vn, mn), "src": "crc.c", "defs": {"VAR": v, "MODE": mode, "LEN": 1},
                         "unwind": 40, "solver": "cadical", "shape": "one byte, symbolic 32-bit state and byte",
                         "desc": "table-driven byte step == 8 bit-at-a-time steps from the catalogue polynomial"})
-        lens = [0, 1, 2] if tier == "quick" else [0, 1, 2, 3, 4]
+        lens = [0, 1, 2]   # 3 and 4 fully symbolic bytes: run time varies from 50 s to > 1500 s between variants (XOR chains, SAT luck) [measured] -> not part of either tier
         for n in lens:
             for pn, pre in (("oneshot", "one-shot"), ("update", "update from"), ("split", "splitting")):
                 out.append({"name": "crc-%s-n%d-%s" % (vn, n, pn), "src": "crc.c", "defs": {"VAR": v, "MODE": 0, "LEN": n},
